@@ -8,7 +8,7 @@ from typing import Any, Dict, List
 
 from .. import gen, hta
 from ..core import Prop
-from .common import case_from_cfg, draw_prefix, write_and_load
+from .common import file_entries, case_from_cfg, draw_prefix, write_and_load
 
 TYPES = {"critical_path_operator": "op", "critical_path_dependency": "dep", "critical_path_kernel_launch_delay": "launch",
          "critical_path_kernel_kernel_delay": "k2k", "critical_path_sync_dependency": "sync"}
@@ -113,6 +113,7 @@ def observe_cp(case: Dict[str, Any], prop: str, whatif: bool = False, breakdown:
         r, ann, inst = run_analysis(ta, case)
         st = ta.t.symbol_table.get_sym_table()
         obs["full"] = frame_rows_cp(ta.t.get_trace(r), st)
+        obs["file"] = file_entries(case, r)
         obs["ann"], obs["inst"] = ann, str(inst)
         # the analysed window must contain at least one operator / runtime call of positive duration (otherwise there is nothing to analyse)
         df = ta.t.get_trace(r)
